@@ -568,11 +568,11 @@ func (p *parser) readFilter() *Filter {
 }
 
 func (p *parser) readProc() *Proc {
-	end := bytes.Index(p.buf, []byte{')', ']'})
+	end := bytes.Index(p.buf[p.pos-1:], []byte{')', ']'})
 	if end < 0 {
 		p.raise("not terminated")
 	}
-	end++
+	end += p.pos
 	code := p.buf[p.pos-1 : end]
 	p.pos = end + 1
 
